@@ -873,7 +873,7 @@ pub fn record_c16(a: &Args) -> usize {
 /// C18: a sequence of messages on one bus with monotonic time stamps at the port's read/write boundaries.
 pub fn record_c18(a: &Args) -> usize {
     let thorough = a.tier == "thorough";
-    let trials = if thorough { 12 } else { 4 };
+    let trials = if thorough { 16 } else { 8 };
     let mut rng = StdRng::seed_from_u64(a.seed ^ 0xC18);
     let mut out = TraceOut::new(&a.out, "C18", 1);
     let own = Address(3);
